@@ -113,17 +113,6 @@ func (eval Evaluator) CheckAndGetGaloisKey(galEl uint64) (evk *GaloisKey, err er
 		return nil, fmt.Errorf("evaluation key interface is nil")
 	}
 
-	if eval.automorphismIndex == nil {
-		eval.automorphismIndex = map[uint64][]uint64{}
-	}
-
-	if _, ok := eval.automorphismIndex[galEl]; !ok {
-		if eval.automorphismIndex[galEl], err = ring.AutomorphismNTTIndex(eval.params.N(), eval.params.RingQ().NthRoot(), galEl); err != nil {
-			// Sanity check, this error should not happen.
-			panic(err)
-		}
-	}
-
 	return
 }
 
@@ -279,7 +268,19 @@ func (eval Evaluator) WithKey(evk EvaluationKeySet) *Evaluator {
 }
 
 func (eval Evaluator) AutomorphismIndex(galEl uint64) []uint64 {
-	return eval.automorphismIndex[galEl]
+	if index, ok := eval.automorphismIndex[galEl]; ok {
+		return index
+	}
+
+	// Not precomputed at construction (the key was added to the key set afterwards): computed on the fly.
+	// The map is shared between shallow copies and is never written after construction.
+	index, err := ring.AutomorphismNTTIndex(eval.params.N(), eval.params.RingQ().NthRoot(), galEl)
+	if err != nil {
+		// Sanity check, this error should not happen.
+		panic(err)
+	}
+
+	return index
 }
 
 func (eval Evaluator) GetEvaluatorBuffer() *EvaluatorBuffers {
